@@ -8,13 +8,17 @@
    also says they never panic; for shape helpers under the validator's precondition; for element generators: one
    call of the closure moves the multi-index state exactly like the model's odometer ([incr], [incr_skip], [bstep]),
    and the statements outside the integer fragment are pinned as text in source order ([itemShape]).
-   An edit of one of these Go functions changes GoFns.v and breaks the theorem unless it computes the same thing.
+   The DATA layer (functions over `any`: float64 leaves and []any rows, recursive closures with pointer
+   parameters) is translated into DataIR programs (Model/DataIR.v, Model/GoData.v, regenerated every run); the
+   [data_*] / [drun_*] theorems say that running them returns exactly the model's nested data (Model/Data.v,
+   Model/Fill.v) and panics exactly where the model says None.
+   An edit of one of these Go functions changes GoFns.v / GoData.v and breaks the theorem unless it computes the same thing.
    Closed under the global context. *)
 From Coq Require Import String List ZArith Bool Arith.
-From Qeep Require Import Model.Nd Model.Fill Model.Valid Model.GoIR.
-From Qeep Require Model.Data Model.GoFns.
+From Qeep Require Import Model.Scalar Model.Nd Model.Fill Model.Valid Model.GoIR Model.DataIR.
+From Qeep Require Model.Data Model.Api Model.GoFns Model.GoData.
 From Qeep Require Import Proofs.GoIRP.
-From Qeep Require Proofs.GoValidAtP Proofs.GoValidP1 Proofs.GoValidP2 Proofs.GoValidP3 Proofs.GoDimsP1 Proofs.GoDimsP2 Proofs.GoGenP1 Proofs.GoGenP2 Proofs.GoGenP3.
+From Qeep Require Proofs.GoValidAtP Proofs.GoValidP1 Proofs.GoValidP2 Proofs.GoValidP3 Proofs.GoDimsP1 Proofs.GoDimsP2 Proofs.GoGenP1 Proofs.GoGenP2 Proofs.GoGenP3 Proofs.GoMatMulShapeP Proofs.DataAtP Proofs.DataSliceP Proofs.DataPatchP Proofs.DataApplyP Proofs.DataReduceP Proofs.DataFillP Proofs.DataLinalgP Proofs.DataConcatP.
 Import ListNotations.
 Local Open Scope string_scope.
 
